@@ -1,2 +1,3 @@
 pub mod merkle;
+pub mod model;
 pub mod sha256;
